@@ -496,12 +496,12 @@ package main
 //@   ensures null-stays-null {C03}: implies(v == nil, result == nil)
 //@   ensures the-binary-subtype-is-kept {C04,C05}: implies(pk == "subType" && gpk == "$binary", result == v)
 //@   ensures unchanged-when-no-name-matches {C14}: implies(sel && !named, result == v)
-//@   ensures redacted-when-a-name-matches {C14}: implies(sel && named && isStr(v) && !polExempt(pk), result == VStr(P) || (enc && result == VStr(CT)))
-//@   ensures search-stage-ignores-selection {C14}: implies(isSearchStage && isStr(v) && !polExempt(pk), result == VStr(P) || (enc && result == VStr(CT)))
+//@   ensures redacted-when-a-name-matches {C14}: implies(sel && named && isStr(v) && !polExempt(pk) && !(pk == "subType" && gpk == "$binary"), result == VStr(P) || (enc && result == VStr(CT)))
+//@   ensures search-stage-ignores-selection {C14}: implies(isSearchStage && isStr(v) && !polExempt(pk) && !(pk == "subType" && gpk == "$binary"), result == VStr(P) || (enc && result == VStr(CT)))
 //@   local c := mkCfg(redactedString, redactNumbers, redactBooleans, shouldEncrypt && encryptionKey != nil, mkbytes(elems(encryptionKey), off(encryptionKey), len(encryptionKey)), redactedFieldsRegexp, emailRegex, redactNamespaces)
 //@   ensures leaf-relation {C01,C02,C03,C04,C05,C12,C14,C15,C19}: LeafOK(c, isSearchStage, pk, gpk, v, result)
 //@   local keptByOperator := opAtOk(selems(keyPath), off(keyPath), len(keyPath), isSearchStage) && opAtVal(selems(keyPath), off(keyPath), len(keyPath), isSearchStage) == VOp(1)
-//@   ensures exact-leaf-function {C02,C19}: implies(!enc && (v == nil || isStr(v) || isNum(v) || isBool(v)), result == ite(keptByOperator || (sel && !named), v, leafPH(c, pk, gpk, v)))
+//@   ensures exact-leaf-function {C02,C19}: implies(!enc && (v == nil || isStr(v) || isNum(v) || isBool(v)), result == ite((pk == "subType" && gpk == "$binary") || keptByOperator || (sel && !named), v, leafPH(c, pk, gpk, v)))
 
 //@ func parseValue
 //@   safety C07
